@@ -147,6 +147,9 @@ Inductive label :=
 | LLocalClose
 (* Disconnect (disconnect.go:22-33) *)
 | LDiscUpdate | LDiscWrite (ok : bool) | LDiscClose
+| LXDiscUpdate                (* a FURTHER call of Disconnect (sequential or from another goroutine) performs its
+                                 connStateUpdate(StateDisconnected); its write has no effect on this state and its
+                                 Transport.Close is LLocalClose *)
 (* keep-alive goroutine of this connection (reconnclient.go:109-133) and its context *)
 | LKAStart | LKAFail (e : errc) | LKACheck | LKASet | LKAClose
 | LCtxCancel.
@@ -243,6 +246,12 @@ Definition cstep (v : variant) (dr : bool) (c : client) (l : label) : option cli
       match c_disc c with
       | DNotStarted => if conn_idle c then Some (set_disc (update c SDisconnected) DWriting) else None
       | _ => None
+      end
+  | LXDiscUpdate =>
+      (* by definition the first Disconnect to update the state is the thread c_disc *)
+      match c_disc c with
+      | DNotStarted => None
+      | _ => if conn_idle c then Some (update c SDisconnected) else None
       end
   | LDiscWrite ok =>
       match c_disc c with
